@@ -141,6 +141,23 @@ CLAIMED["C09"] = dict(
     technique="TLA+ model checking over all map iteration orders (TLC) + sampled real encodings validated by TLC",
     ref="DESIGN.md section 6 C09")
 
+CLAIMED["C17"] = dict(
+    text="TLC checks the operational transcription of is_printer_ready against the declarative statement on every "
+         "abstract response (status class x state form x reasons form/vocabulary/position x group layout) and prints "
+         "the cases; the harness builds each through the API and through the real parser (10 blocking keywords "
+         "rotated) and runs the status gate over all 65536 codes; TLC validates each answer against IppReady.Allowed.",
+    note="Where the property is silent (state absent/other/wrong syntax, non-keyword reasons, 0x0003-0x00ff) either answer "
+         "is a step. State and reasons are those of the first printer-attributes group.",
+    technique="TLA+ model checking operational vs declarative decision (TLC) + replay + TLC trace validation",
+    ref="DESIGN.md section 6 C17")
+CLAIMED["C20"] = dict(
+    text="The messages enumerated for C01 (TLC, MC_Wire) are serialised with serde_json and deserialised - whole message, "
+         "IppAttributes, every value - with the serde feature enabled; TLC validates identity of header, groups, names "
+         "and values and the empty payload against Trace_Wire.SerdeOK.",
+    note="The specification contributes the domain and the identity oracle only (a thin use of TLA+).",
+    technique="spec-enumerated messages (TLC) + serde round trips validated by TLC",
+    ref="DESIGN.md section 6 C20")
+
 NOT_YET = "check not built yet in this round (planned, see DESIGN.md section 6)"
 
 
